@@ -1109,11 +1109,6 @@ func randomSchedule(run *hx.Run, r *hx.RNG, maxActs int, withRestore bool) {
 		az := "all"
 		if r.Chance(45) {
 			az = authzSpecs[r.Intn(len(authzSpecs))].name
-			if k.topic == "c" && strings.HasPrefix(az, "s:") {
-				// a sidecar may be renamed to a name the token cannot read while its destination stays
-				// the same; visibility per instance id is then not stable. Out of scope: node rules only.
-				az = "n:=n1"
-			}
 		}
 		s.emit(w.opClientAz(i, k, hx.Pick(r, toks), r.Bool(), az))
 	}
@@ -1417,6 +1412,34 @@ func corpus(run *hx.Run) {
 		for _, id := range order {
 			drain(s, id)
 		}
+		s.finish()
+	}
+	// Connect topic with a service-subset token: a sidecar is renamed to a name the token cannot
+	// read (same destination) and back; the deregistration of the old name is visible, so the
+	// filtered view must follow the filtered direct query at every step
+	{
+		s := begin(run, false)
+		w := s.w
+		s.emit(w.opClientAz(1, keyT{"c", "web"}, "t1", true, "s:=web,=api"))
+		s.emit(w.opClientAz(2, keyT{"c", "web"}, "t2", false, "all"))
+		s.emit(w.opReg("n1", 1, &svcSpec{"s1", "api", 80, "p", "web"}))
+		s.emit(w.opPub())
+		s.emit(w.opSub(1))
+		s.emit(w.opSub(2))
+		drain(s, 1)
+		drain(s, 2)
+		s.emit(w.opReg("n1", 1, &svcSpec{"s1", "db", 80, "p", "web"}))
+		s.emit(w.opPub())
+		drain(s, 1)
+		drain(s, 2)
+		s.emit(w.opReg("n1", 1, &svcSpec{"s1", "db", 81, "p", "web"}))
+		s.emit(w.opPub())
+		drain(s, 1)
+		drain(s, 2)
+		s.emit(w.opReg("n1", 1, &svcSpec{"s1", "api", 81, "p", "web"}))
+		s.emit(w.opPub())
+		drain(s, 1)
+		drain(s, 2)
 		s.finish()
 	}
 	// ACL token write closes exactly the subscriptions of that token
